@@ -356,6 +356,31 @@ class Builder:
         self.out(target, lines)
         return "promoted_param"
 
+    def s_aug_promote(self, target):
+        """an augmented assignment whose operator (true division) or operand (a float, a bool sum) widens the target: a parameter, or a
+        variable first bound inside a block and declared by hoisting - the forms where the declaration follows the inferred type"""
+        op, rhs = self.draw(st.sampled_from([("/=", "2"), ("/=", "4"), ("/=", "8"), ("+=", "0.25"), ("-=", "0.5"), ("*=", "0.5"), ("*=", "1.5"), ("/=", "2.0"), ("+=", "True")]))
+        where = self.draw(st.sampled_from(["param", "param", "for", "while", "branch"]))
+        first = "True" if rhs == "True" else None
+        if where == "param":
+            h, a = self.name("h"), self.name("a")
+            tail = self.draw(st.sampled_from([[f"    return {a}"], [f"    mon.write({a})", f"    return {a}"], [f"    return {a} + 1"]]))
+            self.pre += [f"def {h}({a}):", f"    {a} {op} {rhs}"] + tail
+            x = self.name()
+            arg = first or self.draw(st.sampled_from(["5", "7", "-3", "1", "9"]))
+            pos = self.draw(st.sampled_from(["assign", "write", "expr"]))
+            self.out(target, {"assign": [f"{x} = {h}({arg})", f"mon.write({x})"], "write": [f"mon.write({h}({arg}))"], "expr": [f"{x} = {h}({arg}) * 2", f"mon.write({x})"]}[pos])
+        elif where == "for":
+            x, k = self.name(), self.name("k")
+            self.out(target, [f"for {k} in range({self.draw(st.integers(1, 3))}):", f"    {x} = {first or k + ' + 1'}", f"    {x} {op} {rhs}", f"    mon.write({x})", f"mon.write({x})"])
+        elif where == "while":
+            x, w = self.name(), self.name("w")
+            self.out(target, [f"{w} = {self.draw(st.integers(1, 3))}", f"while {w} > 0:", f"    {x} = {first or w + ' * 3'}", f"    {x} {op} {rhs}", f"    {w} = {w} - 1", f"mon.write({x})"])
+        else:
+            x, c = self.name(), self.name("c")
+            self.out(target, [f"{c} = {self.cond()}", f"if {c}:", f"    {x} = {first or self.val('int')}", f"    {x} {op} {rhs}", f"    mon.write({x})", f"if {c}:", f"    mon.write({x})"])
+        return "aug_promote_" + where
+
     def s_nested_call_position(self, target):
         """the only float-typed call of an un-annotated helper sits inside another expression (a conversion, an operator, another call, a list,
         a comparison): the helper still needs its float variant"""
@@ -415,7 +440,7 @@ class Builder:
 
 
 SAFE = ["if_else_join", "ifexp_join", "float_first", "branch_hoist", "elif_hoist", "for_hoist", "while_hoist", "return_join", "annotated_param",
-        "list_join", "string_promotion", "tuple", "cross_pass", "mixed_arith", "device_getter", "nested_hoist", "same_local_two_helpers", "shadow", "promoted_param", "nested_call_position"]
+        "list_join", "string_promotion", "tuple", "cross_pass", "mixed_arith", "device_getter", "nested_hoist", "same_local_two_helpers", "shadow", "promoted_param", "nested_call_position", "aug_promote"]
 OPEN = ["retype", "multi_signature", "unannotated_param", "branch_in_loop", "float_minmaxabs", "main_loop_first_assign"]
 
 
